@@ -308,6 +308,14 @@ def tStep (cur k : V) : Option V :=
     | .int i => pyIndex xs i
     | .bool b => pyIndex xs (if b then 1 else 0)
     | _ => Option.none
+  | .str s =>
+    let ix := match k with
+      | .int i => some i
+      | .bool b => some (if b then 1 else 0)
+      | _ => Option.none
+    (match ix with
+     | some i => (pyIndex s.toList i).map (fun c => V.str (String.singleton c))
+     | Option.none => Option.none)
   | _ => Option.none
 
 /-- `_t_eval` of an item-access chain: `none` = PathAccessError (C01 is about which) -/
